@@ -714,7 +714,11 @@ impl FinishedSession {
         if let Some(rollback_delta) = self.rollback_delta {
             // UNWRAP: if rollback_delta is `Some`, then rollback must be also `Some`.
             let rollback = nomt.store.rollback().unwrap();
-            rollback.commit(rollback_delta)?;
+            if let Err(e) = rollback.commit(rollback_delta) {
+                // The segment file may hold a torn record and the root is swapped already.
+                nomt.store.poison();
+                return Err(e);
+            }
         }
 
         nomt.store.commit(
@@ -763,9 +767,17 @@ impl FinishedSession {
         if let Some(rollback_delta) = self.rollback_delta {
             // UNWRAP: if rollback_delta is `Some`, then rollback must be also `Some`.
             let rollback = nomt.store.rollback().unwrap();
-            if let Some(delta) = rollback.commit_nonblocking(rollback_delta)? {
-                self.rollback_delta = Some(delta);
-                return Ok(Some(self));
+            match rollback.commit_nonblocking(rollback_delta) {
+                Ok(Some(delta)) => {
+                    self.rollback_delta = Some(delta);
+                    return Ok(Some(self));
+                }
+                Ok(None) => {}
+                Err(e) => {
+                    // The segment file may hold a torn record.
+                    nomt.store.poison();
+                    return Err(e);
+                }
             }
         }
 
@@ -848,7 +860,11 @@ impl Overlay {
         if let Some(rollback_delta) = rollback_delta {
             // UNWRAP: if rollback_delta is `Some`, then rollback must be also `Some`.
             let rollback = nomt.store.rollback().unwrap();
-            rollback.commit(rollback_delta)?;
+            if let Err(e) = rollback.commit(rollback_delta) {
+                // The segment file may hold a torn record and the root is swapped already.
+                nomt.store.poison();
+                return Err(e);
+            }
         }
 
         nomt.store
@@ -910,7 +926,11 @@ impl Overlay {
         if let Some(rollback_delta) = rollback_delta {
             // UNWRAP: if rollback_delta is `Some`, then rollback must be also `Some`.
             let rollback = nomt.store.rollback().unwrap();
-            rollback.commit(rollback_delta)?;
+            if let Err(e) = rollback.commit(rollback_delta) {
+                // The segment file may hold a torn record and the root is swapped already.
+                nomt.store.poison();
+                return Err(e);
+            }
         }
 
         nomt.store
